@@ -342,10 +342,47 @@ func (c *Ctx) c03Cases(n int) []c03Case {
 }
 
 func runC03(c *Ctx) error {
-	c.Rep.Rule = "search: Eval on random byte strings (0..40 bytes), token soups (0..24 tokens incl. broken literals and stray quotes), 1..3 byte/token/line mutations of every string literal of the repository's tests and of generated programs; Load and Eval-imports on random in-memory trees (1..4 packages, odd file names, empty files, wrong or missing package clauses, well- and ill-formed build constraints, missing / cyclic / self / malformed imports) with random load arguments; Call and Func on missing names, non-function values, wrong argument counts and requested result counts -1..3; every subset of WithTreeDump / WithCodeDump / WithEvalImports (also a nil map); each run under a recover and a 20 s watchdog with a 200000-instruction budget; every error of Eval and Load must carry a stage prefix; distinct = distinct case; non-trivial = the entry point returned an error"
+	c.Rep.Rule = "search: Eval on random byte strings (0..40 bytes), token soups (0..24 tokens incl. broken literals and stray quotes), 1..3 byte/token/line mutations of every string literal of the repository's tests and of generated programs; Load and Eval-imports on random in-memory trees (1..4 packages, odd file names, empty files, wrong or missing package clauses, well- and ill-formed build constraints, missing / cyclic / self / malformed imports) with random load arguments; Call and Func on missing names, non-function values, wrong argument counts and requested result counts -1..3; deep nesting (millions of parentheses, unary operators, nested calls, blocks, literals; long operator, selector and index chains; announced before the run so that a fatal stack overflow still yields a replay); every subset of WithTreeDump / WithCodeDump / WithEvalImports (also a nil map); each run under a recover and a 20 s watchdog with a 200000-instruction budget; every error of Eval and Load must carry a stage prefix; distinct = distinct case; non-trivial = the entry point returned an error"
 	n := 4000
 	if c.Thorough() {
 		n = 400000
+	}
+	// deep nesting: the parser, the compiler and the tree printer recurse once per level, and a Go stack
+	// overflow is a fatal error that no recover catches - each case is announced first, so that a harness
+	// killed by it still yields the replay
+	deep := []struct {
+		name, pre, open, mid, close string
+		n                            int
+	}{
+		{"parentheses", "x := ", "(", "1", ")", 3000000}, {"unary minus", "x := ", "-(", "1", ")", 1000000},
+		{"operator chain", "x := 1", " + 1", "", "", 400000}, {"selector chain", "type T struct { n *T }\nt := &T{}\nx := t", ".n", "", "", 300000},
+		{"index chain", "x := []int{1}\ny := x", "[0", "", "]", 500000}, {"calls", "func f(a int) int { return a }\nx := ", "f(", "1", ")", 500000},
+		{"if blocks", "func f() {", "if true {", "", "}", 300000}, {"slice literals", "x := ", "[]any{", "1", "}", 300000},
+		{"function literals", "x := ", "func() int { return ", "1", " }()", 200000}, {"not", "x := ", "!", "true", "", 2000000},
+	}
+	for _, d := range deep {
+		if !c.Thorough() && d.n > 500000 {
+			d.n = 500000
+		}
+		for _, o := range []int{0, 3} {
+			if o == 3 && d.n > 9000 {
+				d.n = 9000 // the dumps render the whole tree per level (quadratic): with them, a depth inside the accepted range
+			}
+			src := d.pre + strings.Repeat(d.open, d.n) + d.mid + strings.Repeat(d.close, d.n)
+			if d.name == "if blocks" {
+				src += "}"
+			}
+			k := c03Case{Kind: "eval", Src: src, Opts: o}
+			c.Pending(map[string]any{"kind": "eval", "deep_nesting": d.name, "levels": d.n, "opts": o, "src": d.pre + " + " + fmt.Sprint(d.n) + " x " + d.open + " ... " + d.close})
+			verdict, _ := k.run()
+			c.PendingDone()
+			c.Rep.Oracle["no-escape"]++
+			c.Rep.Count("eval-deep-nesting")
+			if verdict != "" {
+				k.Src = d.pre + fmt.Sprintf(" <%d x %q> %s <%d x %q>", d.n, d.open, d.mid, d.n, d.close)
+				c.Rep.Violate(Violation{Kind: "crash", Cut: "no-escape", Input: k, Impl: verdict, Oracle: "returns to the host with values or a staged error"})
+			}
+		}
 	}
 	for i, k := range c.c03Cases(n) {
 		verdict, et := k.run()
